@@ -742,3 +742,18 @@ func init() {
 		e.models["strings.Index"] = func(c *CallCtx) *Term { return StrIndexOf(c.args[0], c.args[1], IntT(0)) }
 	})
 }
+
+func init() {
+	extraModels = append(extraModels, func(e *Engine) {
+		e.models["strings.CutSuffix"] = func(c *CallCtx) *Term {
+			s, suf := c.args[0], c.args[1]
+			has := StrSuffixOf(suf, s)
+			return c.ret(Ite(has, StrSubstr(s, IntT(0), Sub(StrLen(s), StrLen(suf))), s), has)
+		}
+		e.models["strings.CutPrefix"] = func(c *CallCtx) *Term {
+			s, p := c.args[0], c.args[1]
+			has := StrPrefixOf(p, s)
+			return c.ret(Ite(has, StrSubstr(s, StrLen(p), Sub(StrLen(s), StrLen(p))), s), has)
+		}
+	})
+}
